@@ -105,7 +105,15 @@ def parser_callees(ctx, f, roots, tag, only_files=None):
 
 
 def run(ctx):
-    ctx.level = "proof"
+    if ctx.pid != "C19":
+        # included by another property's check: once per run is enough
+        key = ("c19", getattr(ctx, "rule_suffix", ""))
+        done = ctx.__dict__.setdefault("_groups_done", set())
+        if key in done:
+            return
+        done.add(key)
+    if ctx.pid == "C19":
+        ctx.level = "proof"
     ctx.explanation = __doc__
     # ------------------------------------------------------------------ no panic, both profiles
     for cfg in ("A", "B"):
